@@ -7,6 +7,7 @@ From Frugal.props Require Import Examples.
 From Frugal Require Import TypeCache CacheChecks.
 From Frugal.gen Require Import CacheKey.
 From Frugal.proofs Require Import GenCacheKey TypeCacheProofs.
+From Frugal.proofs Require Import GenAccess.
 Import ListNotations.
 
 (* every call's outcome, after ANY history of calls (valid and invalid types, failing calls, any
@@ -49,3 +50,8 @@ Proof. exact cache_transparent_ty. Qed.
 Theorem C07_cache_key : cache_key_ok = true.
 Proof. exact cache_key_ok_holds. Qed.
 Print Assumptions C07_type_cache_transparent.
+
+(* the registration path of desc.go reads as State.v assumes: one lock around build, rollback on
+   failure / commit on success, and publication; nothing deferred outside the lock (Checks.access_ok) *)
+Theorem C07_registration_shape : access_ok = true.
+Proof. exact access_ok_holds. Qed.
